@@ -233,7 +233,7 @@ func c13NoAttachDeleted(c *Ctx) *RuleResult {
 			switch {
 			case !g.Pos && s == recv+".isDeleted":
 				okG, why = true, "!isDeleted"
-			case g.Pos && s == "ok":
+			case g.Pos && guardIdentSource(u, g) != nil:
 				// ok from a lookup in the same contents
 				if okFromLookupIn(u, g.Cond, recv) {
 					okG, why = true, "an existing entry was found in the same contents"
